@@ -24,6 +24,21 @@
                   post-processing incl. the 'wierd behaviour' assertion; no side condition: a zero pivot is None on both sides);
                   class spectra pcovar_shift pcovar_mirror pmodcovar_shift pmodcovar_mirror pmodcovar_reversal
      MA           ma_modulation ma_conj ma_time_reversal (arma.ma = aryule twice); class spectrum pma_shift pma_mirror pma_reversal
+     ARMA         (the model of C15, Model/ArmaEst.v + Model/ArmaCall.v)  acorr_modulation_offset (a constant phase in front of the data
+                  is not seen), arma_ma_modulation (ArmaEst.ma, any phase offset), arma_estimate_modulation_solvers: x_n -> x_n phi(n)
+                  gives AR coefficient j times phi(j+1), MA coefficient j times phi(j+1), the same variance and the same exception, for
+                  EVERY P, Q, lag and any two pairs of covariance-method oracles that are equivariant on the system they are handed
+                  (y_k -> y_k phi(k+Q+1-P)); arma_estimate_modulation: one equivariant pair; ls_cov_modulation: the executable solver of
+                  Model/Ls.v is equivariant for every phase offset (no side condition); ls_exact_modulation / ls_exact_conjugation: so are the
+                  oracles of C15's correspondence run (elimination without pivoting or zero tests) whenever no pivot vanishes, hence
+                  arma_estimate_exact_modulation / parma_exact_shift (and, ordered, arma_estimate_exact_conj / parma_exact_mirror) hold for
+                  exactly the instance C15 ties to the code with NO oracle hypothesis; arma_class_call_rotation / _mirror: what the six
+                  AR/MA/ARMA __call__ pipelines store for complex data is rolled by m bins / mirrored; parma_shift_solvers parma_shift
+                  pma_object_shift: parma / pma objects built from the modulated data store the modulated ar / ma, the same rho and the
+                  PSD rolled by m bins (or raise the same exception).
+                  [ordered *-field: characteristic 0 and positive Levinson powers] arma_ma_conj arma_estimate_conj_solvers
+                  arma_estimate_conj ls_cov_conj parma_mirror_solvers parma_mirror pma_object_mirror: conjugated data => conjugated
+                  coefficients, same rho, mirrored stored PSD; guard: the residual handed to ma (the data, for pma) is not identically zero
      min. variance  minvar_shift minvar_mirror minvar_time_reversal (every order / NFFT incl. aliased grids)
      multitaper   multitaper_shift multitaper_mirror multitaper_reversal: MultiTapering.__call__ on complex data, methods
                   unity / eigen / adapt (the adaptive iteration runs in lock step: pointwise update, rotation-invariant stop test)
@@ -37,11 +52,13 @@
    by are nonzero (N, N-k, mean power for 'coeff', the error powers / Burg denominators of the executed stages) -- conj(a/0)
    is not determined in an abstract field and the code produces inf/nan there.
 
-   NOT PROVED (search on the implementation only): arma_estimate (parma: its class spectrum follows from arma2psd_rotation /
-   _mirror once the estimator law is known; there is no model of arma_estimate), pmusic / pev, real-data correlogram
+   NOT PROVED (search on the implementation only): that arcovar_marple / scipy lstsq inside arma_estimate are equivariant (they are
+   the oracles [lsm], [lsq] of the model: hypothesis of the theorems, proved for the executable solver), pmusic / pev, real-data correlogram
    (two-sided to one-sided conversion), pdaniell; arma2psd with norm=True.  scipy.linalg.lstsq is represented by the
    executable solver ls_solve (any solver of the normal equations agrees with it on full-rank data: C09). *)
 From Coq Require Import String.
+Require Import Spectrum.Model.ArmaEst Spectrum.Model.ArmaCall.   (* before Yule / Arma2psd: their aryule, arma2psd stay the unqualified ones *)
+Require Import Spectrum.Theory.Order.
 Require Import Spectrum.Theory.Ops Spectrum.Theory.Sum Spectrum.Theory.Vec Spectrum.Theory.Dft
                Spectrum.Model.Levinson Spectrum.Model.Corr Spectrum.Model.Periodogram Spectrum.Model.Arma2psd
                Spectrum.Model.Yule Spectrum.Model.Burg Spectrum.Model.Minvar Spectrum.Model.Mtm Spectrum.Model.PipelineLib
@@ -51,6 +68,7 @@ Require Import Spectrum.Theory.Ops Spectrum.Theory.Sum Spectrum.Theory.Vec Spect
                Spectrum.Proofs.ShiftArma_C04 Spectrum.Proofs.ShiftBurg_C04 Spectrum.Proofs.ShiftMinvar_C04
                Spectrum.Proofs.ShiftMtm_C04 Spectrum.Proofs.HomTransfer_C04 Spectrum.Proofs.ShiftPipeline_C04
                Spectrum.Proofs.ShiftMa_C04 Spectrum.Proofs.ShiftLs_C04
+               Spectrum.Proofs.ArmaEstNondeg Spectrum.Proofs.ShiftArmaEst_C04 Spectrum.Proofs.ShiftLsExact_C04 Spectrum.Instances.QcCOrd
                Spectrum.Instances.QcC Spectrum.Instances.QcCTw.
 From Coq Require Import QArith Qcanon.
 
@@ -336,6 +354,94 @@ Theorem arburg_real_parameters (x : list F) order stop a rho k : allreal x -> of
   (forall q st, (q < order)%nat -> burg_iter stop x q = BCont st -> burg_den (length x) st q <> 0) ->
   arburg x order stop = Some (a, rho, k) -> allreal a /\ allreal k.
 Proof. exact (arburg_real_thm x order stop a rho k). Qed.
+
+(* ---------------- arma.ma, arma.arma_estimate, parma / pma over the model of C15 ---------------- *)
+Theorem acorr_modulation_offset (m off : Z) (x : list F) ml nm :
+  acorr (vmod (shift_phase m) off x) ml nm = option_map (vmod (shift_phase m) 0) (acorr x ml nm).
+Proof. exact (acorr_modulation_off_thm (shift_phase m) (shift_phase_add m) (shift_phase_0 m) (shift_phase_cj m) off x ml nm). Qed.
+
+Theorem arma_ma_modulation (m off : Z) (x : list F) Q M :
+  ArmaEst.ma (vmod (shift_phase m) off x) Q M = map_mae (modA (shift_phase m)) (ArmaEst.ma x Q M).
+Proof. exact (ma_est_modulation_thm (shift_phase m) (shift_phase_add m) (shift_phase_0 m) (shift_phase_cj m) off x Q M). Qed.
+
+Theorem arma_estimate_modulation_solvers (m : Z) (lsm lsq lsm' lsq' : list F -> nat -> list F) (x : list F) P Q lag :
+  (forall r, acorr x lag Unbiased = Some r ->
+     let y := arma_y r P Q lag in let off := (Z.of_nat Q + 1 - Z.of_nat P)%Z in
+     firstn P (lsm' (vmod (shift_phase m) off y) P) = modA (shift_phase m) (firstn P (lsm y P))
+     /\ lsq' (vmod (shift_phase m) off y) P = modA (shift_phase m) (lsq y P)) ->
+  arma_estimate lsm' lsq' (vmod (shift_phase m) 0 x) P Q lag
+  = match arma_estimate lsm lsq x P Q lag with
+    | inl e => inl e
+    | inr (a, b, rho) => inr (modA (shift_phase m) a, modA (shift_phase m) b, rho)
+    end.
+Proof. exact (arma_estimate_modulation_gen (shift_phase m) (shift_phase_add m) (shift_phase_0 m) (shift_phase_cj m) lsm lsq lsm' lsq' x P Q lag). Qed.
+
+Theorem arma_estimate_modulation (m : Z) (lsm lsq : list F -> nat -> list F) (x : list F) P Q lag :
+  (forall off y p, firstn p (lsm (vmod (shift_phase m) off y) p) = modA (shift_phase m) (firstn p (lsm y p))
+                   /\ lsq (vmod (shift_phase m) off y) p = modA (shift_phase m) (lsq y p)) ->
+  arma_estimate lsm lsq (vmod (shift_phase m) 0 x) P Q lag = map_arma (modA (shift_phase m)) (arma_estimate lsm lsq x P Q lag).
+Proof. exact (arma_estimate_modulation_thm (shift_phase m) (shift_phase_add m) (shift_phase_0 m) (shift_phase_cj m) lsm lsq x P Q lag). Qed.
+
+Theorem ls_cov_modulation (m off : Z) tol (y : list F) p :
+  firstn p (lsm_cov tol (vmod (shift_phase m) off y) p) = modA (shift_phase m) (firstn p (lsm_cov tol y p))
+  /\ lsq_cov tol (vmod (shift_phase m) off y) p = modA (shift_phase m) (lsq_cov tol y p).
+Proof. exact (ls_cov_mod_equivariant (shift_phase m) (shift_phase_add m) (shift_phase_0 m) (shift_phase_cj m) tol off y p). Qed.
+
+Theorem arma_class_call_rotation (m : Z) cl (ar ma : list F) v N order twopi sampling sbf :
+  class_call tw cl (modA (shift_phase m) ar) (modA (shift_phase m) ma) v N order twopi sampling n false sbf
+  = map_call (modA (shift_phase m)) (rot m) (class_call tw cl ar ma v N order twopi sampling n false sbf).
+Proof. exact (class_call_rotation n tw n_pos m cl ar ma v N order twopi sampling sbf). Qed.
+
+Theorem arma_class_call_mirror cl (ar ma : list F) v N order twopi sampling sbf :
+  class_call tw cl (vconj ar) (vconj ma) v N order twopi sampling n false sbf
+  = map_call vconj mirror (class_call tw cl ar ma v N order twopi sampling n false sbf).
+Proof. exact (class_call_mirror n tw n_pos cl ar ma v N order twopi sampling sbf). Qed.
+
+Theorem parma_shift_solvers (m : Z) (lsm lsq lsm' lsq' : list F -> nat -> list F) (x : list F) P Q lag twopi sampling sbf :
+  (forall r, acorr x lag Unbiased = Some r ->
+     let y := arma_y r P Q lag in let off := (Z.of_nat Q + 1 - Z.of_nat P)%Z in
+     firstn P (lsm' (vmod (shift_phase m) off y) P) = modA (shift_phase m) (firstn P (lsm y P))
+     /\ lsq' (vmod (shift_phase m) off y) P = modA (shift_phase m) (lsq y P)) ->
+  parma_call tw lsm' lsq' (vmod (shift_phase m) 0 x) P Q lag twopi sampling n false sbf
+  = map_call (modA (shift_phase m)) (rot m) (parma_call tw lsm lsq x P Q lag twopi sampling n false sbf).
+Proof. exact (parma_shift_gen n tw n_pos m lsm lsq lsm' lsq' x P Q lag twopi sampling sbf). Qed.
+
+Theorem parma_shift (m : Z) (lsm lsq : list F -> nat -> list F) (x : list F) P Q lag twopi sampling sbf :
+  (forall off y p, firstn p (lsm (vmod (shift_phase m) off y) p) = modA (shift_phase m) (firstn p (lsm y p))
+                   /\ lsq (vmod (shift_phase m) off y) p = modA (shift_phase m) (lsq y p)) ->
+  parma_call tw lsm lsq (vmod (shift_phase m) 0 x) P Q lag twopi sampling n false sbf
+  = map_call (modA (shift_phase m)) (rot m) (parma_call tw lsm lsq x P Q lag twopi sampling n false sbf).
+Proof. exact (parma_shift_thm n tw n_pos m lsm lsq x P Q lag twopi sampling sbf). Qed.
+
+Theorem pma_object_shift (m : Z) (x : list F) Q M twopi sampling sbf :
+  pma_call tw (vmod (shift_phase m) 0 x) Q M twopi sampling n false sbf
+  = map_call (modA (shift_phase m)) (rot m) (pma_call tw x Q M twopi sampling n false sbf).
+Proof. exact (pma_call_shift_thm n tw n_pos m x Q M twopi sampling sbf). Qed.
+
+(* the oracles of C15's correspondence run: equivariant when no pivot of their elimination vanishes *)
+Theorem ls_exact_modulation (m off : Z) (y : list F) p : ls_exact_regular y p ->
+  firstn p (lsm_exact (vmod (shift_phase m) off y) p) = modA (shift_phase m) (firstn p (lsm_exact y p))
+  /\ ls_exact (vmod (shift_phase m) off y) p = modA (shift_phase m) (ls_exact y p).
+Proof.
+  exact (fun Hr => Logic.conj (lsm_exact_modulation (shift_phase m) (shift_phase_add m) (shift_phase_0 m) (shift_phase_cj m) off y p Hr)
+                              (ShiftLsExact_C04.ls_exact_modulation (shift_phase m) (shift_phase_add m) (shift_phase_0 m) (shift_phase_cj m) off y p Hr)).
+Qed.
+
+Theorem ls_exact_conjugation (y : list F) p : ls_exact_regular y p ->
+  firstn p (lsm_exact (vconj y) p) = vconj (firstn p (lsm_exact y p)) /\ ls_exact (vconj y) p = vconj (ls_exact y p).
+Proof. exact (fun Hr => Logic.conj (lsm_exact_conj y p Hr) (ls_exact_conj y p Hr)). Qed.
+
+Theorem arma_estimate_exact_modulation (m : Z) (x : list F) P Q lag :
+  (forall r, acorr x lag Unbiased = Some r -> ls_exact_regular (arma_y r P Q lag) P) ->
+  arma_estimate lsm_exact ls_exact (vmod (shift_phase m) 0 x) P Q lag
+  = map_arma (modA (shift_phase m)) (arma_estimate lsm_exact ls_exact x P Q lag).
+Proof. exact (arma_estimate_exact_modulation_thm (shift_phase m) (shift_phase_add m) (shift_phase_0 m) (shift_phase_cj m) x P Q lag). Qed.
+
+Theorem parma_exact_shift (m : Z) (x : list F) P Q lag twopi sampling sbf :
+  (forall r, acorr x lag Unbiased = Some r -> ls_exact_regular (arma_y r P Q lag) P) ->
+  parma_call tw lsm_exact ls_exact (vmod (shift_phase m) 0 x) P Q lag twopi sampling n false sbf
+  = map_call (modA (shift_phase m)) (rot m) (parma_call tw lsm_exact ls_exact x P Q lag twopi sampling n false sbf).
+Proof. exact (parma_exact_shift_thm n tw n_pos m x P Q lag twopi sampling sbf). Qed.
 End C04.
 
 (* ---------------- real data: the real code path and the complex code path return the same parameters ---------------- *)
@@ -368,6 +474,70 @@ Theorem arburg_real_path (stopR : nat -> R -> R -> bool) (stopF : nat -> F -> F 
 Proof. exact (fun Hs => arburg_hom_thm phi H Hle stopR stopF Hs x order). Qed.
 End C04Real.
 
+(* ---------------- conjugation of arma.ma / arma_estimate / parma / pma: ordered *-field ---------------- *)
+Section C04ArmaConj.
+Context {F : Type} {OF : Ops F} {L : Laws OF} {OL : OrdLaws OF}.
+Context (n : nat) (tw : Z -> F) {T : Twiddle n tw} (n_pos : (0 < n)%nat).
+Local Open Scope F_scope.
+
+Theorem arma_ma_conj (x : list F) Q M : (forall b rho, ArmaEst.ma x Q M = inr (b, rho) -> nonzero_data x) ->
+  ArmaEst.ma (vconj x) Q M = map_mae vconj (ArmaEst.ma x Q M).
+Proof. exact (ma_est_conj_thm x Q M). Qed.
+
+Theorem arma_estimate_conj_solvers (lsm lsq lsm' lsq' : list F -> nat -> list F) (x : list F) P Q lag :
+  (forall r, acorr x lag Unbiased = Some r ->
+     firstn P (lsm' (vconj (arma_y r P Q lag)) P) = vconj (firstn P (lsm (arma_y r P Q lag) P))
+     /\ lsq' (vconj (arma_y r P Q lag)) P = vconj (lsq (arma_y r P Q lag) P)) ->
+  (forall a b rho, arma_estimate lsm lsq x P Q lag = inr (a, b, rho) -> nonzero_data (arma_resid x a P)) ->
+  arma_estimate lsm' lsq' (vconj x) P Q lag
+  = match arma_estimate lsm lsq x P Q lag with inl e => inl e | inr (a, b, rho) => inr (vconj a, vconj b, rho) end.
+Proof. exact (arma_estimate_conj_gen lsm lsq lsm' lsq' x P Q lag). Qed.
+
+Theorem arma_estimate_conj (lsm lsq : list F -> nat -> list F) (x : list F) P Q lag :
+  (forall y p, firstn p (lsm (vconj y) p) = vconj (firstn p (lsm y p)) /\ lsq (vconj y) p = vconj (lsq y p)) ->
+  (forall a b rho, arma_estimate lsm lsq x P Q lag = inr (a, b, rho) -> nonzero_data (arma_resid x a P)) ->
+  arma_estimate lsm lsq (vconj x) P Q lag = map_arma vconj (arma_estimate lsm lsq x P Q lag).
+Proof. exact (arma_estimate_conj_thm lsm lsq x P Q lag). Qed.
+
+Theorem ls_cov_conj tol (y : list F) p :
+  firstn p (lsm_cov tol (vconj y) p) = vconj (firstn p (lsm_cov tol y p)) /\ lsq_cov tol (vconj y) p = vconj (lsq_cov tol y p).
+Proof. exact (ls_cov_conj_equivariant tol y p). Qed.
+
+Theorem parma_mirror_solvers (lsm lsq lsm' lsq' : list F -> nat -> list F) (x : list F) P Q lag twopi sampling sbf :
+  (forall r, acorr x lag Unbiased = Some r ->
+     firstn P (lsm' (vconj (arma_y r P Q lag)) P) = vconj (firstn P (lsm (arma_y r P Q lag) P))
+     /\ lsq' (vconj (arma_y r P Q lag)) P = vconj (lsq (arma_y r P Q lag) P)) ->
+  (forall a b rho, arma_estimate lsm lsq x P Q lag = inr (a, b, rho) -> nonzero_data (arma_resid x a P)) ->
+  parma_call tw lsm' lsq' (vconj x) P Q lag twopi sampling n false sbf
+  = map_call vconj mirror (parma_call tw lsm lsq x P Q lag twopi sampling n false sbf).
+Proof. exact (parma_mirror_gen n tw n_pos lsm lsq lsm' lsq' x P Q lag twopi sampling sbf). Qed.
+
+Theorem parma_mirror (lsm lsq : list F -> nat -> list F) (x : list F) P Q lag twopi sampling sbf :
+  (forall y p, firstn p (lsm (vconj y) p) = vconj (firstn p (lsm y p)) /\ lsq (vconj y) p = vconj (lsq y p)) ->
+  (forall a b rho, arma_estimate lsm lsq x P Q lag = inr (a, b, rho) -> nonzero_data (arma_resid x a P)) ->
+  parma_call tw lsm lsq (vconj x) P Q lag twopi sampling n false sbf
+  = map_call vconj mirror (parma_call tw lsm lsq x P Q lag twopi sampling n false sbf).
+Proof. exact (parma_mirror_thm n tw n_pos lsm lsq x P Q lag twopi sampling sbf). Qed.
+
+Theorem pma_object_mirror (x : list F) Q M twopi sampling sbf :
+  (forall b rho, ArmaEst.ma x Q M = inr (b, rho) -> nonzero_data x) ->
+  pma_call tw (vconj x) Q M twopi sampling n false sbf = map_call vconj mirror (pma_call tw x Q M twopi sampling n false sbf).
+Proof. exact (pma_call_mirror_thm n tw n_pos x Q M twopi sampling sbf). Qed.
+
+Theorem arma_estimate_exact_conj (x : list F) P Q lag :
+  (forall r, acorr x lag Unbiased = Some r -> ls_exact_regular (arma_y r P Q lag) P) ->
+  (forall a b rho, arma_estimate lsm_exact ls_exact x P Q lag = inr (a, b, rho) -> nonzero_data (arma_resid x a P)) ->
+  arma_estimate lsm_exact ls_exact (vconj x) P Q lag = map_arma vconj (arma_estimate lsm_exact ls_exact x P Q lag).
+Proof. exact (arma_estimate_exact_conj_thm x P Q lag). Qed.
+
+Theorem parma_exact_mirror (x : list F) P Q lag twopi sampling sbf :
+  (forall r, acorr x lag Unbiased = Some r -> ls_exact_regular (arma_y r P Q lag) P) ->
+  (forall a b rho, arma_estimate lsm_exact ls_exact x P Q lag = inr (a, b, rho) -> nonzero_data (arma_resid x a P)) ->
+  parma_call tw lsm_exact ls_exact (vconj x) P Q lag twopi sampling n false sbf
+  = map_call vconj mirror (parma_call tw lsm_exact ls_exact x P Q lag twopi sampling n false sbf).
+Proof. exact (parma_exact_mirror_thm n tw n_pos x P Q lag twopi sampling sbf). Qed.
+End C04ArmaConj.
+
 (* non-vacuity: an exact character exists (n = 4), modulated runs on concrete complex data return a model *)
 Example twiddle_exists : @Twiddle _ qcc_ops 4 tw4. Proof. exact tw4_twiddle. Qed.
 Example levinson_modulation_example :
@@ -383,6 +553,61 @@ Proof. vm_compute. eexists. split; reflexivity. Qed.
 Example minvar_shift_example :
   exists r, @minvar _ qcc_ops tw4 (@vmod _ qcc_ops (shift_phase tw4 1) 0 [cz (2,0) (0,0); cz (1,0) (1,-1); cz (1,-2) (-1,-1); cz (0,0) (3,0); cz (-1,0) (1,0)]%Z) 3 (cz (1,0) (0,0))%Z 4 = Some r.
 Proof. vm_compute. eexists. reflexivity. Qed.
+
+(* arma_estimate / parma on a concrete complex sequence, shift by one bin of the 4-point grid: the oracles of C15's correspondence run
+   meet the pointwise hypothesis; the solver of Model/Ls.v is equivariant by theorem; an object with a non-constant PSD is returned *)
+Local Open Scope Z_scope.
+Definition c04_ax : list QcC := [cz (1,0) (0,0); cz (-1,1) (1,0); cz (3,0) (0,0); cz (1,0) (-1,0); cz (-1,0) (1,1);
+                                 cz (1,1) (0,0); cz (1,0) (1,0); cz (-3,0) (0,0); cz (1,0) (0,0); cz (1,1) (-1,0)].
+Definition c04_tol : QcC := (Q2Qc (1 # 10000), Q2Qc 0).
+Definition c04_twopi : QcC := cz (25,-2) (0,0).
+Definition c04_fs : QcC := cz (2,0) (0,0).
+Local Close Scope Z_scope.
+Definition c04_eqb (a b : QcC) : bool := Qc_eq_bool (fst a) (fst b) && Qc_eq_bool (snd a) (snd b).
+Fixpoint c04_leqb (l1 l2 : list QcC) : bool :=
+  match l1, l2 with [], [] => true | a :: t, b :: u => c04_eqb a b && c04_leqb t u | _, _ => false end.
+Definition c04_r := Eval vm_compute in @acorr _ qcc_ops c04_ax 3 Unbiased.
+Lemma c04_r_eq : @acorr _ qcc_ops c04_ax 3 Unbiased = c04_r. Proof. vm_compute. reflexivity. Qed.
+Example arma_estimate_modulation_example :
+  @arma_estimate _ qcc_ops (@lsm_exact _ qcc_ops) (@ls_exact _ qcc_ops) (@vmod _ qcc_ops (shift_phase tw4 1) 0 c04_ax) 1 1 3
+  = @map_arma _ (@modA _ qcc_ops (shift_phase tw4 1)) (@arma_estimate _ qcc_ops (@lsm_exact _ qcc_ops) (@ls_exact _ qcc_ops) c04_ax 1 1 3)
+  /\ match @arma_estimate _ qcc_ops (@lsm_exact _ qcc_ops) (@ls_exact _ qcc_ops) c04_ax 1 1 3 with
+     | inr (a, b, _) => negb (c04_leqb (@modA _ qcc_ops (shift_phase tw4 1) a) a) && negb (c04_leqb (@modA _ qcc_ops (shift_phase tw4 1) b) b)
+     | inl _ => false
+     end = true.
+Proof.
+  split; [|vm_compute; reflexivity].
+  apply (@arma_estimate_exact_modulation _ qcc_ops qcc_laws 4 tw4 tw4_twiddle ltac:(lia) 1%Z).
+  intros r Hr. rewrite c04_r_eq in Hr. unfold c04_r in Hr. injection Hr as <-. split; [|exact I]. vm_compute. intro E. inversion E.
+Qed.
+Definition c04_estcov := Eval vm_compute in @arma_estimate _ qcc_ops (@lsm_cov _ qcc_ops c04_tol) (@lsq_cov _ qcc_ops c04_tol) c04_ax 1 1 3.
+Lemma c04_estcov_eq : @arma_estimate _ qcc_ops (@lsm_cov _ qcc_ops c04_tol) (@lsq_cov _ qcc_ops c04_tol) c04_ax 1 1 3 = c04_estcov.
+Proof. vm_compute. reflexivity. Qed.
+Lemma c04_cov_nondeg a b rho : @arma_estimate _ qcc_ops (@lsm_cov _ qcc_ops c04_tol) (@lsq_cov _ qcc_ops c04_tol) c04_ax 1 1 3 = inr (a, b, rho) ->
+  @nonzero_data _ qcc_ops (@arma_resid _ qcc_ops c04_ax a 1).
+Proof.
+  intros H. rewrite c04_estcov_eq in H. unfold c04_estcov in H. injection H as <- _ _.
+  exists O. split; [vm_compute; lia|]. vm_compute. intro E. inversion E.
+Qed.
+Example parma_shift_mirror_example :
+  @parma_call _ qcc_ops tw4 (@lsm_cov _ qcc_ops c04_tol) (@lsq_cov _ qcc_ops c04_tol) (@vmod _ qcc_ops (shift_phase tw4 1) 0 c04_ax) 1 1 3 c04_twopi c04_fs 4 false true
+  = @map_call _ (@modA _ qcc_ops (shift_phase tw4 1)) (@rot _ qcc_ops 1)
+      (@parma_call _ qcc_ops tw4 (@lsm_cov _ qcc_ops c04_tol) (@lsq_cov _ qcc_ops c04_tol) c04_ax 1 1 3 c04_twopi c04_fs 4 false true)
+  /\ @parma_call _ qcc_ops tw4 (@lsm_cov _ qcc_ops c04_tol) (@lsq_cov _ qcc_ops c04_tol) (@vconj _ qcc_ops c04_ax) 1 1 3 c04_twopi c04_fs 4 false true
+  = @map_call _ (@vconj _ qcc_ops) (@mirror _ qcc_ops)
+      (@parma_call _ qcc_ops tw4 (@lsm_cov _ qcc_ops c04_tol) (@lsq_cov _ qcc_ops c04_tol) c04_ax 1 1 3 c04_twopi c04_fs 4 false true)
+  /\ match @parma_call _ qcc_ops tw4 (@lsm_cov _ qcc_ops c04_tol) (@lsq_cov _ qcc_ops c04_tol) c04_ax 1 1 3 c04_twopi c04_fs 4 false true with
+     | inr e => (length (x_psd e) =? 4)%nat && negb (c04_leqb (@rot _ qcc_ops 1 (x_psd e)) (x_psd e)) && negb (c04_leqb (@mirror _ qcc_ops (x_psd e)) (x_psd e))
+     | inl _ => false            (* an object is returned; its 4-bin PSD is neither rotation nor mirror invariant *)
+     end = true.
+Proof.
+  split; [|split; [|vm_compute; reflexivity]].
+  - apply (@parma_shift _ qcc_ops qcc_laws 4 tw4 tw4_twiddle ltac:(lia) 1%Z).
+    intros off y p. apply (@ls_cov_modulation _ qcc_ops qcc_laws 4 tw4 tw4_twiddle ltac:(lia)).
+  - apply (@parma_mirror _ qcc_ops qcc_laws qcc_ord 4 tw4 tw4_twiddle ltac:(lia)).
+    + intros y p. apply (@ls_cov_conj _ qcc_ops qcc_laws).
+    + exact c04_cov_nondeg.
+Qed.
 
 Print Assumptions dft_shift.
 Print Assumptions dft_mirror.
@@ -443,7 +668,30 @@ Print Assumptions class_stored_mirror.
 Print Assumptions onesided_static.
 Print Assumptions aryule_real_parameters.
 Print Assumptions arburg_real_parameters.
+Print Assumptions acorr_modulation_offset.
+Print Assumptions arma_ma_modulation.
+Print Assumptions arma_estimate_modulation_solvers.
+Print Assumptions arma_estimate_modulation.
+Print Assumptions ls_cov_modulation.
+Print Assumptions arma_class_call_rotation.
+Print Assumptions arma_class_call_mirror.
+Print Assumptions parma_shift_solvers.
+Print Assumptions parma_shift.
+Print Assumptions pma_object_shift.
+Print Assumptions ls_exact_modulation.
+Print Assumptions ls_exact_conjugation.
+Print Assumptions arma_estimate_exact_modulation.
+Print Assumptions parma_exact_shift.
 Print Assumptions acorr_real_path.
 Print Assumptions levinson_real_path.
 Print Assumptions aryule_real_path.
 Print Assumptions arburg_real_path.
+Print Assumptions arma_ma_conj.
+Print Assumptions arma_estimate_conj_solvers.
+Print Assumptions arma_estimate_conj.
+Print Assumptions ls_cov_conj.
+Print Assumptions parma_mirror_solvers.
+Print Assumptions parma_mirror.
+Print Assumptions pma_object_mirror.
+Print Assumptions arma_estimate_exact_conj.
+Print Assumptions parma_exact_mirror.
